@@ -883,6 +883,58 @@ def twin_templates(ch, m):
     body = bodies[bi]
     np_ = (1, 3, 2, 2, 2, 3)[bi]
     types = [I32, I64, F32, F64]
+    if ch.below(2):
+        # a longer generated body (tens of bytes) over k value parameters of one type and a trailing i32 condition: moves between
+        # the parameters, selects, drops, nops and void if/else arms - nothing in its bytes names a value type
+        k = 2 + ch.below(3)
+        depth = [0]
+
+        def moves(n):
+            b = []
+            for _ in range(n):
+                o = ch.below(7)
+                if o < 2 or depth[0] == 0:
+                    b.append(('local.get', ch.below(k)))
+                    depth[0] += 1
+                elif o == 2:
+                    b.append(('local.tee', ch.below(k)))
+                elif o == 3:
+                    b.append(('local.set', ch.below(k)))
+                    depth[0] -= 1
+                elif o == 4 and depth[0] >= 2:
+                    b += [('local.get', k), ('select',)]
+                    depth[0] -= 1
+                elif o == 5:
+                    b.append(('nop',))
+                else:
+                    b.append(('drop',))
+                    depth[0] -= 1
+            return b
+        body = moves(4 + ch.below(12))
+        if ch.below(2):
+            d0 = depth[0]
+            depth[0] = 0
+            arms = []
+            for _ in range(2):
+                a = moves(2 + ch.below(5))
+                a += [('drop',)] * depth[0]
+                depth[0] = 0
+                arms.append(a)
+            depth[0] = d0
+            body += [('local.get', k), ('if', None, arms[0], arms[1])] + moves(2 + ch.below(6))
+        while depth[0] > 1:
+            body += [('local.get', k), ('select',)] if ch.below(2) else [('drop',)]
+            depth[0] -= 1
+        if depth[0] == 0:
+            body.append(('local.get', ch.below(k)))
+        if ch.below(3) == 0:
+            body.append(('return',))
+        for _ in range(2 + ch.below(3)):
+            t = types.pop(ch.below(len(types)))
+            out.append(Func(m.type_index((t,) * k + (I32,), (t,)), [], [tuple(i) if i[0] != 'if' else ('if', None, list(i[2]), list(i[3])) for i in body]))
+            if not types:
+                break
+        return out
     for _ in range(2 + ch.below(3)):
         t = types.pop(ch.below(len(types)))
         ps = (t,) * np_ if np_ < 3 else (t, t, I32)
